@@ -159,6 +159,7 @@ def run(ctx, tier):
                    "integer line, independent of how the test is written) are the Standard's / RFC 1035's")
     ctx.rule("H8", "the opaque-host parsers refuse forbidden host code points and the domain path refuses forbidden domain code "
                    "points, in both URL types (anchored to the Standard, not to the twin)")
+    ctx.rule("H10", "decimal IPv4 fast path: the leading-zero test looks at the first digit of an octet (no accumulation before it)")
     ctx.rule("H9", "IPv6 parser: the pieces behind '::' are moved to the end of the address starting from the last one "
                    "(source and destination ranges overlap)")
     ctx.rule("H4", "IPv6 serializer: the recorded longest zero run is replaced only by a strictly longer one (first longest wins)")
@@ -172,6 +173,7 @@ def run(ctx, tier):
         from rules import helpers_spec as HS
         HS.check_required_refusals(ctx, fxs[name], "H8")
         check_ipv6_move(ctx, fxs[name], "H9")
+        HS.check_leading_zero_order(ctx, fxs[name], "H10")
 
 
 def _subst_pk(e, pname):
